@@ -273,3 +273,7 @@ def run(tier, V):
     assumptions = ['whole-line semantics: anchors and word boundaries see their real neighbours; the line terminator is not part of the text',
                    'left-to-right scripts only (bidi is C17/C18); cursor is clamped off the terminator after the search']
     return cov, assumptions
+
+
+def REPLAY(w):
+    return run_case((build('asan'), w['index']))[:2]
